@@ -148,5 +148,5 @@ def strategy(draw, affine=False):
 
 
 def subchecks(tier):
-    return [Sub("multipliers", multiplier_case, strategy=strategy, n_quick=700, n_thorough=12000, shards_quick=4),
-            Sub("affine", affine_case, strategy=lambda: strategy(affine=True), n_quick=300, n_thorough=4000, shards_quick=2)]
+    return [Sub("multipliers", multiplier_case, strategy=strategy, n_quick=700, n_thorough=30000, shards_quick=4),
+            Sub("affine", affine_case, strategy=lambda: strategy(affine=True), n_quick=300, n_thorough=10000, shards_quick=2)]
